@@ -76,7 +76,7 @@ FULL = [
     ["append_T", "P"], ["append_T", "E"], ["append_text", "Q"], ["append_text", "E"],
     ["append_tokens", [["t", "red"], ["u", None]]],
     ["add", "s:x"], ["add", "P"],
-    ["rappend", "P"], ["rappend_text", "Q"], ["radd", "E"],
+    ["rappend", "P"], ["rappend_text", "Q"], ["radd", "E"], ["assemble", ["@", ["x", "red"], "y"], "italic"],
     ["stylize", "red", 0, None], ["stylize", "red", 1, 3], ["stylize", "red", -1, None], ["stylize", "red", -9, 1],
     ["stylize", "blue", 0, -1], ["stylize", "blue", 1, 99], ["stylize", "blue", -9, None], ["stylize", "blue", 2, 1],
     ["stylize", "bold", 1, 2],
@@ -251,6 +251,9 @@ def apply_real(t, ev):
         return [x]
     elif k == "radd":
         return [build_real(ARGS[ev[1]]) + t]
+    elif k == "assemble":
+        return [Text.assemble(*[t if p == "@" else (p if isinstance(p, str) else (p[0], p[1])) for p in ev[1]],
+                              style=ev[2])]
     elif k == "stylize":
         t.stylize(ev[1], ev[2], ev[3])
     elif k == "pad":
@@ -327,6 +330,9 @@ def apply_ref(r, ev, observed=None):
         x = build_ref(ARGS[ev[1]])
         x.append_ref(r)
         return [x]
+    elif k == "assemble":
+        return [RefText.assemble([r if p == "@" else (p if isinstance(p, str) else (p[0], STY[p[1]])) for p in ev[1]],
+                                 STY[ev[2]])]
     elif k == "stylize":
         r.stylize(STY[ev[1]], ev[2], ev[3])
     elif k == "pad":
@@ -450,7 +456,10 @@ def compare(t, ref):
         return ("len-raises", "len() raises %s: %s (plain %r)" % (type(e).__name__, e, got))
     if n != len(want):
         return ("len-differs", "len()=%d but plain %r has %d characters" % (n, got, len(want)))
-    obs = observe(t)
+    try:
+        obs = observe(t)
+    except Exception as e:
+        return ("render-raises", "render() raises %s: %s (plain %r, spans %r)" % (type(e).__name__, e, got, t.spans))
     if "".join(c for c, _ in obs) != want:
         return ("render-differs-from-plain", "render() yields %r for plain %r" % ("".join(c for c, _ in obs), want))
     eff = ref.effective()
@@ -816,30 +825,46 @@ def _stratum_inits(name, tier):
                 for d in inits_for_string(s, 2):
                     yield i, d
     elif name == "B":
-        for i, s in enumerate(_strings(2)):
-            for d in inits_for_string(s, 1, other_ctors=(tier != "quick")):
-                yield i, d
+        if tier == "quick":
+            for i, s in enumerate(_strings(1)):
+                for d in inits_for_string(s, 2):
+                    yield i, d
+        else:
+            for i, s in enumerate(_strings(2)):
+                for d in inits_for_string(s, 1):
+                    yield i, d
+
+
+DEEP_SEEDS = (0, 1)       # thorough: these seeds go one level deeper
 
 
 def plan(tier, seed):
+    """longest shards first (the pool hands them out in this order)"""
     shards = []
-    na = 48 if tier == "quick" else 192
-    shards += [{"st": "A", "i": i, "n": na} for i in range(na)]
-    if tier != "quick":
+    if tier == "quick":
+        for si in range(len(SEEDS)):
+            for j in range(2):
+                shards.append({"st": "D", "seed": si, "j": j, "m": 2, "depth": 4})
+        shards += [{"st": "B", "i": i, "n": 8} for i in range(8)]
+        shards += [{"st": "A", "i": i, "n": 48} for i in range(48)]
+    else:
+        m = len(CORE)
+        for si in DEEP_SEEDS:
+            for j in range(m):
+                shards.append({"st": "D", "seed": si, "j": j, "m": m, "depth": 6})
+        for si in range(len(SEEDS)):
+            if si not in DEEP_SEEDS:
+                for j in range(5):
+                    shards.append({"st": "D", "seed": si, "j": j, "m": 5, "depth": 5})
         shards += [{"st": "B", "i": i, "n": 57} for i in range(57)]
-    m = 2 if tier == "quick" else 5
-    for si in range(len(SEEDS)):
-        for j in range(m):
-            shards.append({"st": "D", "seed": si, "j": j, "m": m})
+        shards += [{"st": "A", "i": i, "n": 192} for i in range(192)]
     return shards
 
 
-def _depth_d(tier):
-    return 4 if tier == "quick" else 5
-
-
 def run_shard(sh, tier, seed):
+    import time
     res = Result()
+    c0 = time.process_time()
     st = sh["st"]
     if st == "A":
         inits = [d for i, d in _stratum_inits("A", tier) if i % sh["n"] == sh["i"]]
@@ -848,34 +873,39 @@ def run_shard(sh, tier, seed):
         inits = [d for i, d in _stratum_inits("B", tier) if i % sh["n"] == sh["i"]]
         explore(inits, [FULL, FULL], res)
     elif st == "D":
-        D = _depth_d(tier)
+        D = sh["depth"]
         explore([SEEDS[sh["seed"]]], [CORE] * D, res, chain_extra=12 - D,
-                chain_states=40 if tier == "quick" else 400, first_filter=(sh["j"], sh["m"]))
+                chain_states=40 if tier == "quick" else 200, first_filter=(sh["j"], sh["m"]))
+    res.count("cpu_s", round(time.process_time() - c0, 2))
+    res.count("max_depth_core_bfs" if st == "D" else "max_depth_full_menu", sh.get("depth") or (2 if st == "B" else 1))
     return res
 
 
 def describe(tier, seed, res):
     c = res.counters
-    D = _depth_d(tier)
+    quick = tier == "quick"
     return {
-        "rule": ("stratum A: every initial state (strings <=%s over {a, U+3042, space, tab, newline, U+0008, U+0301} x ordered "
+        "rule": ("Stratum A: every initial state (strings <=%s over {a, U+3042, space, tab, newline, U+0008, U+0301} x ordered "
                  "span sets of <=2 spans over {red, blue} x base {none, italic}, built through Text(), Text.styled, "
-                 "Text.assemble, Text.from_markup) x each of the %d events of the FULL menu; %s"
-                 "stratum D: BFS with the %d-event CORE menu to depth %d from %d hand-picked seeds, then every deepest "
-                 "state class extended by %d-event chains (one per menu rotation) to history length 12. Events whose "
-                 "reference result exceeds %d characters are not enabled. Each piece returned by split/divide/fit is a "
-                 "successor. A violating transition is reported and not extended. Non-trivial = the event changed the "
-                 "reference state or produced pieces; distinct = distinct outcome signatures (event, argument class, "
-                 "pieces, changed, styled, wild)." % (
-                     "2 (+ length 3 with <=1 span, base none)" if tier == "quick" else "3", len(FULL),
-                     "" if tier == "quick" else "stratum B: strings <=2 with <=1 span x FULL x FULL (depth 2); ",
-                     len(CORE), D, len(SEEDS), 12 - D, MAXLEN)),
+                 "Text.assemble, Text.from_markup) x each of the %d events of the FULL menu. Stratum B: %s x FULL x FULL "
+                 "(all histories of length 2, dedup). Stratum D: BFS with the %d-event CORE menu to depth %s from %d "
+                 "hand-picked seeds; then the deepest level is partitioned into structural classes, up to %d states are "
+                 "taken round-robin over the classes per shard and each is extended by one chain per menu rotation up to "
+                 "history length 12 (chains are enumerated, not a full product). Events whose reference result exceeds %d "
+                 "characters are not enabled. Each piece returned by split/divide/fit is a successor. A violating "
+                 "transition is reported and not extended. Non-trivial = the event changed the reference state or "
+                 "produced pieces; distinct = distinct outcome signatures (event, argument class, pieces, changed, "
+                 "styled, wild, tainted)." % (
+                     "2 (+ length 3 with <=1 span, base none, Text() only)" if quick else "3", len(FULL),
+                     "strings <=1 with <=2 spans" if quick else "strings <=2 with <=1 span",
+                     len(CORE), "4" if quick else "5 (6 from seeds %s, one shard per first event)" % (DEEP_SEEDS,),
+                     len(SEEDS), 40 if quick else 200, MAXLEN)),
         "assumptions": [
-            "deduplication is per shard: `states` and `transitions` are sums over shards (states is an upper bound on distinct canonical states)",
-            "characters invented by an operation (ellipsis, space for a halved wide character, tab-expansion spaces, text written through the plain setter, ReprHighlighter styles) carry no style obligation; padding must show the base style only",
+            "deduplication is per shard: `states` and `transitions` are sums over shards (states is an upper bound on the number of distinct canonical states)",
+            "characters invented by an operation (ellipsis, space for a halved wide character, tab-expansion spaces, text written through the plain setter, characters styled by ReprHighlighter) carry no style obligation; padding must show the base style only",
             "a zero-width character exactly at a cell-crop boundary may be kept or dropped (as in C13)",
-            "negative offsets follow Python slice semantics; right_crop/remove_suffix/slicing are judged as the ordinary-string operations s[:len(s)-n], s.removesuffix, s[i:j]",
-            "truncate(0, ellipsis) and truncate(ignore, pad=True) are outside the menu (the documented rule is not defined there)",
+            "negative offsets follow Python slice semantics; right_crop / remove_suffix / text[i] / text[i:j] are judged as the ordinary-string operations s[:max(len(s)-n,0)], s.removesuffix, s[i] (IndexError included), s[i:j]",
+            "truncate(0, ellipsis), truncate(ignore, pad=True), negative counts, multi-character separators and Text.overflow/justify other than None are outside the menu",
             "style names are read by Console.get_style / Style combination (C06 decides those)",
         ],
         "coverage": {
@@ -885,7 +915,7 @@ def describe(tier, seed, res):
             "max_depth": c.get("max_depth", 0),
             "frontier_at_depth_bound": c.get("frontier_at_depth_bound", 0),
             "states_revalidated_by_replay": c.get("states_revalidated_by_replay", 0),
-            "depth_bound_core_bfs": D,
+            "cpu_seconds_all_shards": round(c.get("cpu_s", 0), 1),
         },
     }
 
